@@ -28,6 +28,8 @@ pub fn check(tier: Tier) -> Check {
     // persistent back-pressure on the write half: a future dropped while its packet is half written
     parts.push(Part::new("C15/cancel", json!({"depth": tier.pick(4, 5), "r": 2, "wb": true}), 1, tier.pick(30, 500)));
     parts.push(Part::new("C15/cancel", json!({"depth": tier.pick(3, 4), "r": 1, "wb": true}), 2, tier.pick(30, 500)));
+    // a Maximum Packet Size in force: abandoned requests that would have been refused for their size
+    parts.push(Part::new("C15/cancel", json!({"depth": tier.pick(4, 5), "r": 2, "m": 12}), 1, tier.pick(30, 500)));
     // requests made before connect() (and possibly abandoned before it)
     parts.push(Part::new("C15/cancel", json!({"depth": tier.pick(4, 5), "r": 1, "early": 3}), 0, tier.pick(30, 500)));
     // operations issued on one long-lived handle and on clones of it (a cancelled operation takes the handle with it)
@@ -134,7 +136,11 @@ pub fn scenario(name: &str, params: &Value) -> Scenario {
         let mut sys = Sys::new("C15", &name, chz);
         sys.params = params.clone();
         sys.m.check_client_acks = false;
-        sys.bring_up_fl(receive_max(r), params["flavour"].as_u64().unwrap_or(0));
+        let mut cprops = receive_max(r);
+        if let Some(m) = params["m"].as_u64() {
+            cprops.push(pvcore::refcodec::Prop::u32(pvcore::refcodec::P_MAXIMUM_PACKET_SIZE, m as u32));
+        }
+        sys.bring_up_fl(cprops, params["flavour"].as_u64().unwrap_or(0));
         let mut specs = std_ops();
         specs.push(OpSpec::Publish(PublishSpec::simple(0, "t/z", b"zero")));
         let devs = |s: &Sys| {
